@@ -308,6 +308,20 @@ func genC01Graph(g *G, id int, countOnly bool) C01Case {
 	}
 	// literal-only values for the comparison atoms: objects compare by structure in OPA, not modelled
 	c.Graph = g.graph(3+g.n(5), 0.45)
+	if id%4 == 1 {
+		// one predicate lives in the a.ml core vocabulary and the profile reaches it through the BUILT-IN alias `core`, which it does
+		// not declare: what that alias means does not depend on what other profiles of the process bound it to
+		local := g.pick(propPool)
+		for k := range c.Atoms {
+			moveToCore(c.Graph, &c.Atoms[k].Path, local)
+			if c.Atoms[k].Other != nil {
+				moveToCore(c.Graph, c.Atoms[k].Other, local)
+			}
+		}
+		for k := range c.Paths {
+			moveToCore(c.Graph, &c.Paths[k], local)
+		}
+	}
 	return c
 }
 
